@@ -425,19 +425,21 @@ func c12WideCase(in [48]byte) (key, detail string) {
 
 // C12 checks the base-field layer.
 func C12(r *ev.Report) {
+	thorough := ev.Thorough() && !c12Seam
+
 	level := 0
-	if ev.Thorough() {
+	if thorough {
 		level = 1
 	}
 
 	vals := alpha.Values(ref.P, level)
 	pairVals := vals
 
-	if ev.Thorough() {
+	if thorough {
 		pairVals = alpha.Thin(alpha.Values(ref.P, 2), 9000)
 	}
 
-	if c12Light && !ev.Thorough() {
+	if c12Light && !thorough {
 		pairVals = alpha.Thin(vals, 320) // seam under another property: a lighter pair product, same unary sweeps
 	}
 
@@ -548,7 +550,7 @@ func C12(r *ev.Report) {
 	us := vals
 	vs := alpha.Thin(vals, 32)
 
-	if !ev.Thorough() {
+	if !thorough {
 		us = append(alpha.Thin(vals, 900), alpha.RawNeighbours(ref.P, 1)...)
 	}
 
@@ -634,21 +636,31 @@ func valOfP(v *big.Int) alpha.Val {
 // property (one part per process, so a package variable is safe).
 var c12Light bool
 
-func c12Seam(r *ev.Report) {
-	c12Light = true
+// c12Seam is set when the sweep runs as a seam part: the thorough tier of the *other* property then runs this
+// sweep at its quick depth (full pair product), not at its own thorough depth - that one belongs to C12 itself.
+var c12Seam bool
+
+func c12SeamLight(r *ev.Report) {
+	c12Seam = true
+	c12Light = !ev.Thorough()
+	C12(r)
+}
+
+func c12SeamFull(r *ev.Report) {
+	c12Seam = true
 	C12(r)
 }
 
 func init() {
 	for _, pid := range []string{"C01", "C02", "C03", "C04", "C05"} {
-		Parts[pid+"field"] = Part{pid, c12Seam}
+		Parts[pid+"field"] = Part{pid, c12SeamLight}
 	}
 
 	// The hashing and map-to-curve properties rest on exact field arithmetic; their own (msg, DST) / u alphabets
 	// reach a defective operand class of Mul or Square only by brute force over SHA-256, so the field layer - which
 	// their anchors include - is checked as a seam under those properties as well.
-	Parts["C08field"] = Part{"C08", C12}
-	Parts["C11field"] = Part{"C11", C12}
+	Parts["C08field"] = Part{"C08", c12SeamFull}
+	Parts["C11field"] = Part{"C11", c12SeamFull}
 	Parts["C12"] = Part{"C12", C12}
 	Replayers["C12"] = func(c Case) (bool, string) {
 		var key, detail string
